@@ -16,6 +16,7 @@ SPEC = {
         "inserts the command at index 0 and passes args/config whole, every env edit snapshots the environment first; "
         "(e) Clone / try_clone are field-wise and variant-wise (nothing dropped or defaulted), and the description "
         "holds no shared mutable state; (f) env_remove keeps an entry iff its key differs from the argument."
+        " Also: each env edit is applied on every path and nothing else touches config.env; Pipeline::clone is field-wise; setup_communicate pipes stdout on its own only when neither output was configured, and nothing else; stream_* adapters pipe exactly the stream they are named after."
     ),
     "not_decided": "the environment-edit algebra over arbitrary call sequences (inherit / clear / set / remove / set-again with "
                    "last-wins) as a history-quantified statement about run-time vectors; File::try_clone sharing file offsets.",
